@@ -43,3 +43,43 @@ class GeneratePin(Contract):
     def generated_pin_is_valid(result): return pin_policy(result)
     ensures = [generated_pin_is_valid]
     assumptions = ["termination of generate_pin is probabilistic: partial correctness only"]
+
+
+# ---- FileBasedPin: the change state machine (C10) -------------------------------------------------------------
+PINERR = "ledger.pin:PinError"
+FBPIN = OBJ("ledger.pin:FileBasedPin", logger=OPAQUE("logger"), _path=STR_, _pin=BYTES_, _needs_change=BOOL_,
+            _changing=BOOL_, _new_pin=ONEOF(NONE_, BYTES_))
+
+
+def fs_untouched(g, old):
+    return g.pinfile == old.g.pinfile and g.fs_writes == old.g.fs_writes and g.pinfile_exists == old.g.pinfile_exists
+
+
+@contract("ledger/pin.py", "FileBasedPin.commit_change", serves=["C10"])
+class CommitChange(Contract):
+    self_spec = FBPIN
+    modifies_self = dict(_pin=BYTES_, _new_pin=ONEOF(NONE_, BYTES_), _changing=BOOL_, _needs_change=BOOL_)
+    ghost_frame = ["pinfile", "pinfile_exists", "fs_writes"]
+
+    def changing_has_a_pin(self): return implies(self._changing, not is_none(self._new_pin))
+    requires = [changing_has_a_pin]
+
+    def nothing_unless_changing(self, g, old):
+        if field(old.self, "_changing"):
+            return True
+        return fs_untouched(g, old) and self._pin == field(old.self, "_pin")
+    def file_holds_exactly_the_new_pin(self, g, old):
+        if field(old.self, "_changing"):
+            return (g.pinfile == field(old.self, "_new_pin") and self._pin == field(old.self, "_new_pin")
+                    and not self._changing and not self._needs_change and g.fs_writes == old.g.fs_writes + 1)
+        return True
+    ensures = [nothing_unless_changing, file_holds_exactly_the_new_pin]
+
+    def failed_write(self, g, old):
+        """I/O failure: the PIN in use is unchanged; the file is old (open failed) or truncated / partial"""
+        if field(old.self, "_changing"):
+            return (self._pin == field(old.self, "_pin") and self._changing
+                    and (fs_untouched(g, old) or (g.fs_writes == old.g.fs_writes + 1
+                                                  and prefix_of(g.pinfile, field(old.self, "_new_pin")))))
+        return False
+    raises = {PINERR: Exc(args=[STR_], post=[failed_write])}
